@@ -116,6 +116,34 @@ static void busy_us(unsigned us)
   }
 }
 
+// start-progress oracle: after start() has returned, wait until `moved()`; however long a STARVED (runnable) loop thread
+// needs.  Returns false -- a lost wake-up -- only when the loop thread is seen BLOCKED in the kernel (state S, CPU time not
+// advancing) on 50 (x patience) consecutive samples 40 ms apart although it should run (or, while its tid is still unknown
+// because the body has never run, after 60 s x patience).
+template <class F>
+static bool wait_progress(F moved, std::atomic<int> &ltid, long *samples = nullptr)
+{
+  BlockWatch w;
+  long ts = now_ms(), t0 = ts, n = 0;
+  while (!moved()) {
+    busy_us(10);
+    long now = now_ms();
+    if (now - ts >= 40) {
+      ts    = now;
+      n++;
+      w.tid = ltid.load();
+      if (w.sample(50 * g_patience) || (w.tid <= 0 && now - t0 > 60000L * g_patience)) {
+        if (samples)
+          *samples = n;
+        return false;
+      }
+    }
+  }
+  if (samples)
+    *samples = n;
+  return true;
+}
+
 static std::atomic<long> g_progress{0};
 static std::atomic<int> g_phase{0};
 static std::atomic<long> g_cycle{0};
@@ -125,6 +153,8 @@ static int tight(const char *mname, int method, int nthreads, long max_cycles, u
   std::atomic<long> counter{0};
   std::atomic<int> ltid{0};
   long ran_after_stop = 0, first_bad = -1, bad_at_stop = 0, bad_later = 0, bad_resample = 0, lost = 0, done = 0;
+  long first_lost = -1, lost_counter = 0, b2b_checked = 0;
+  bool lost_b2b = false;
   const char *bad_where = "";
   long t_start = now_ms();
   {
@@ -144,25 +174,29 @@ static int tight(const char *mname, int method, int nthreads, long max_cycles, u
       loop.start();
       if ((x >> 7) % 5 == 0)
         loop.start();  // redundant
-      if (c % 8 == 0) {
-        // progress after start(): wait for the counter, however long a starved thread needs
-        BlockWatch w;
-        long ts = now_ms(), t0 = ts;
-        while (counter.load() == c0) {
-          busy_us(20);
-          long now = now_ms();
-          if (now - ts >= 40) {
-            ts    = now;
-            w.tid = ltid.load();
-            if (w.sample(50 * g_patience) || (w.tid <= 0 && now - t0 > 60000L * g_patience)) {
-              lost++;
-              break;
-            }
+      // style of this cycle: back-to-back (the stop() of this cycle is followed by the next start() with NO pause and no
+      // sampling in between; start-progress is checked in every such cycle) or paced (pauses, stop-oracle sampling)
+      bool b2b = (x >> 3) % 2 == 0;
+      if (b2b || c % 8 == 0) {
+        // progress after start(): the counter must advance
+        if (!wait_progress([&] { return counter.load() != c0; }, ltid)) {
+          lost++;
+          if (first_lost < 0) {
+            first_lost    = c;
+            lost_counter  = counter.load();
+            lost_b2b      = b2b;
           }
+          break;  // the loop thread sleeps for good: nothing more to learn from this object
         }
+        b2b_checked += b2b;
       } else
         busy_us((x >> 12) % 24);
       loop.stop();
+      if (b2b) {
+        done++;
+        g_progress++;
+        continue;                        // next start() immediately
+      }
       long c1 = counter.load();          // stop() has returned: no body invocation may begin from here on ...
       if ((x >> 20) % 5 == 0)
         loop.stop();  // redundant
@@ -193,9 +227,10 @@ static int tight(const char *mname, int method, int nthreads, long max_cycles, u
   }  // destructor
   g_phase = 3;
   printf("TIGHT method=%s nthreads=%d num_tasking_threads=%d cycles_done=%ld body_runs=%ld ran_after_stop=%ld first_bad_cycle=%ld "
-         "counter_when_stop_returned=%ld counter_before_next_start=%ld counter_resampled=%ld where=[%s] lost_wakeups=%ld wall_ms=%ld\n",
+         "counter_when_stop_returned=%ld counter_before_next_start=%ld counter_resampled=%ld where=[%s] lost_wakeups=%ld wall_ms=%ld "
+         "back_to_back_checked=%ld first_lost_cycle=%ld lost_after_back_to_back=%d counter_stuck_at=%ld\n",
          mname, nthreads, rkcommon::tasking::numTaskingThreads(), done, counter.load(), ran_after_stop, first_bad, bad_at_stop, bad_later,
-         bad_resample, bad_where, lost, now_ms() - t_start);
+         bad_resample, bad_where, lost, now_ms() - t_start, b2b_checked, first_lost, (int)lost_b2b, lost_counter);
   return 0;
 }
 
@@ -208,9 +243,12 @@ struct LongBody
 {
   std::atomic<bool> inside{false};
   std::atomic<long> enters{0}, exits{0}, t_exit_us{0}, dur_us{1};
+  std::atomic<int> ltid{0};
   void operator()()
   {
     long d = dur_us.load();
+    if (!ltid.load(std::memory_order_relaxed))
+      ltid = my_tid();
     enters++;
     inside = true;
     if (d >= 1000)
@@ -229,7 +267,7 @@ static int long_body(const char *mname, int method, int nthreads, long max_body_
   static const long decades[] = {1, 10, 100, 1000, 10000, 100000, 400000, 1200000};
   long t_start = now_ms();
   long tested = 0, mid_body = 0, bad_stop = 0, bad_dtor = 0, dtor_tested = 0;
-  long bad_dur = -1, bad_late_us = 0;
+  long bad_dur = -1, bad_late_us = 0, lost_start = 0, lost_dur = -1;
   const char *bad_what = "";
   bool owns = method == (int)AsyncLoop::THREAD || (method == (int)AsyncLoop::AUTO && rkcommon::tasking::numTaskingThreads() <= 4);
   (void)seed;
@@ -245,10 +283,12 @@ static int long_body(const char *mname, int method, int nthreads, long max_body_
       b.dur_us = d;
       long e0 = b.enters.load();
       loop.start();
-      while (b.enters.load() == e0 || !b.inside.load()) {   // wait until an invocation with this duration is inside
-        if (b.enters.load() > e0 + 3 && d < 1000)
-          break;                                            // short bodies: inside only in passing
-        busy_us(5);
+      // wait until an invocation with this duration is inside (short bodies: inside only in passing) -- or the start is lost
+      if (!wait_progress([&] { return (b.enters.load() != e0 && b.inside.load()) || (b.enters.load() > e0 + 3 && d < 1000); }, b.ltid)) {
+        lost_start++;
+        if (lost_dur < 0)
+          lost_dur = d;
+        break;
       }
       bool was_inside = b.inside.load();
       long x0 = b.exits.load();
@@ -290,8 +330,11 @@ static int long_body(const char *mname, int method, int nthreads, long max_body_
       {
         AsyncLoop loop([b] { (*b)(); }, (AsyncLoop::LaunchMethod)method);
         loop.start();
-        while (!b->inside.load())
-          busy_us(5);
+        if (!wait_progress([&] { return b->inside.load(); }, b->ltid)) {
+          lost_start++;
+          if (lost_dur < 0)
+            lost_dur = d;
+        }
       }  // ~AsyncLoop() while the body is inside, no stop() before
       long t_ret = now_us();
       dtor_tested++;
@@ -311,9 +354,9 @@ static int long_body(const char *mname, int method, int nthreads, long max_body_
   g_phase = 3;
   printf("LONG method=%s nthreads=%d num_tasking_threads=%d owns_thread=%d durations_tested=%ld stop_called_mid_body=%ld "
          "stop_returned_while_inside=%ld dtor_tested=%ld dtor_returned_while_inside=%ld first_bad_body_us=%ld body_exit_after_return_us=%ld "
-         "what=[%s] wall_ms=%ld\n",
+         "what=[%s] wall_ms=%ld lost_wakeups=%ld lost_at_body_us=%ld\n",
          mname, nthreads, rkcommon::tasking::numTaskingThreads(), (int)owns, tested, mid_body, bad_stop, dtor_tested, bad_dtor, bad_dur,
-         bad_late_us, bad_what, now_ms() - t_start);
+         bad_late_us, bad_what, now_ms() - t_start, lost_start, lost_dur);
   return 0;
 }
 
